@@ -190,7 +190,7 @@ impl Property for C17 {
     }
     fn cases(&self, tier: Tier) -> u64 {
         match tier {
-            Tier::Quick => 30_000,
+            Tier::Quick => 100_000,
             Tier::Thorough => 2_000_000,
         }
     }
